@@ -151,11 +151,16 @@ class Engine:
 
     def _heap0(s, f, tag):
         ty = s.field_type(f)
+        if isinstance(ty, tuple) and ty[0] == "rec":
+            return None
         if ty == "items":
             return z3.Const("%s.%s" % (tag, f), z3.ArraySort(I, z3.ArraySort(I, I)))
         return z3.Const("%s.%s" % (tag, f), z3.ArraySort(I, sort_of(ty)))
 
     def heap0(s, st, h0, f):
+        ty0 = s.field_type(f)
+        if isinstance(ty0, tuple) and ty0[0] == "rec":
+            return None
         if f not in h0:
             h0[f] = s._heap0(f, "h0")
             if f not in st.heap:
@@ -164,11 +169,24 @@ class Engine:
 
     def load(s, st, ref, f):
         ty = s.field_type(f)
+        if isinstance(ty, tuple) and ty[0] == "rec":
+            return VRec(ref, ty[1])
+        if ty == "py":
+            key = (str(z3.simplify(ref)), f)
+            d = st.ghost.get("$py", {})
+            if key not in d:
+                raise OutOfSubset("python-valued field %s read before being set" % f)
+            return d[key]
         t = z3.Select(s.heap(st, f), ref)
         return wrap(ty, t)
 
     def store(s, st, ref, f, val):
         ty = s.field_type(f)
+        if ty == "py":
+            d = dict(st.ghost.get("$py", {}))
+            d[(str(z3.simplify(ref)), f)] = val
+            st.ghost["$py"] = d
+            return
         t = s.coerce(val, ty, st)
         st.heap[f] = z3.Store(s.heap(st, f), ref, t)
         st.written.add(f)
@@ -345,13 +363,21 @@ class Engine:
             return z3.If(v.t, z3.StringVal("True"), z3.StringVal("False"))
         raise OutOfSubset("str() of %r" % (v,))
 
+    def _conc(s, t):
+        t = z3.simplify(t)
+        return t.as_string() if z3.is_string_value(t) else None
+
     def mk_strip(s, st, t):
+        if s._conc(t) is not None:
+            return z3.StringVal(s._conc(t).strip())
         r = strip(t)
         st.assume(strip(r) == r)
         st.assume(z3.Length(r) <= z3.Length(t))
         return r
 
     def mk_strip_nl(s, st, t):
+        if s._conc(t) is not None:
+            return z3.StringVal(s._conc(t).strip("\n"))
         r = strip_nl(t)
         st.assume(strip(r) == strip(t))
         st.assume(z3.Length(r) <= z3.Length(t))
@@ -359,6 +385,8 @@ class Engine:
         return r
 
     def mk_upper(s, st, t):
+        if s._conc(t) is not None:
+            return z3.StringVal(s._conc(t).upper())
         r = upper(t)
         st.assume(upper(r) == r)
         return r
@@ -623,6 +651,10 @@ class Engine:
         if isinstance(op, ast.Mult) and isinstance(a, VStr) and isinstance(b, VInt):
             av = z3.simplify(a.t)
             if z3.is_string_value(av) and av.as_string() == " ":
+                if getattr(s.cur, "pad_obligation", False):
+                    # the blank run between unit and value/description must not be empty
+                    s.goal(st, "pad>=1@line%s" % getattr(node, "lineno", "?"), b.t >= 1, "safety", node,
+                           note="the header formatter separates unit and value by at least one blank")
                 r = blanks(b.t)
                 st.assume(z3.Length(r) == z3.If(b.t > 0, b.t, 0))
                 return VStr(r)
@@ -684,6 +716,13 @@ class Engine:
         return res
 
     def getattr_(s, v, attr, st, out, node):
+        if isinstance(v, VPy):
+            if attr in v.attrs:
+                return [(st, v.attrs[attr])]
+            if s.find_method(v.cls, attr):
+                return [(st, VBound(v, attr))]
+            s.raise_(st, "AttributeError", out, node)
+            return []
         if isinstance(v, VRef):
             info = s.class_info(v.cls)
             # data field?
@@ -796,6 +835,14 @@ class Engine:
 
     def index(s, v, k, st, out, node):
         """v[k] -> [(st, value)]; IndexError/KeyError outcomes appended to out"""
+        if isinstance(v, VRec):
+            kt = z3.simplify(k.t) if isinstance(k, VStr) else None
+            if kt is None or not z3.is_string_value(kt):
+                raise OutOfSubset("record field indexed with a symbolic key")
+            key = kt.as_string()
+            if key not in v.mapping:
+                raise OutOfSubset("record key %r is not modelled" % key)
+            return [(st, s.load(st, v.ref, v.mapping[key]))]
         if isinstance(v, VDict):
             if isinstance(k, VStr):
                 kt = z3.simplify(k.t)
